@@ -487,7 +487,13 @@ func (e *Engine) Explore(h Harness, cfg Config, opt ExploreOpts) (*ExploreStats,
 					if res.Sample.HadViolation && nv < 2 || !res.Sample.HadViolation && opt.Samples > 0 {
 						st.Samples = append(st.Samples, *res.Sample)
 					}
-					if len(st.Samples)-nv > opt.Samples && opt.Samples > 0 {
+					nv = 0
+					for _, x := range st.Samples {
+						if x.HadViolation {
+							nv++
+						}
+					}
+					if len(st.Samples)-nv > opt.Samples && opt.Samples > 0 && sampleStride < 1<<40 {
 						// thin: keep every other passing sample, double the stride
 						kept, k := st.Samples[:0], 0
 						for _, x := range st.Samples {
